@@ -131,6 +131,8 @@ func checkC08(r *Run) {
 	c08Constructors(r, ts, fns)
 	c08Walk(r, p)
 	isDirTestsTheBit(r, "isdir")
+	// "Walk validates names": the validator rejects exactly the unsafe elements (empty, '.', separators, misplaced '..')
+	c16ValidPath(r, p.Fn("p9p:ValidPath"))
 	c08OpenOnce(r, p)
 	c08FileAfterSuccess(r, p)
 	c08ModeGate(r, p)
